@@ -300,9 +300,11 @@ def case_transpose(c):
             F, rxs[-1], 'linear')).ravel()[0])
     ex = _rx(F, PA[:k], AZ[:k], EL[:k])       # same receivers as a tuple
     compared += k + 1
-    with np.errstate(invalid='ignore'):
-        same = (np.abs(rl - ex).max() <= 1e-13*np.abs(F.field).max()
-                and abs(r1 - ex[-1]) <= 1e-13*np.abs(F.field).max())
+    rl1 = np.append(rl, r1)
+    ex1 = np.append(ex, ex[-1])
+    fin = np.isfinite(ex1)
+    same = (np.array_equal(np.isfinite(rl1), fin) and (not fin.any() or np.abs(
+        rl1[fin] - ex1[fin]).max() <= 1e-13*np.abs(F.field).max()))
     if not same:
         viol.append({'cls': 'receiver-instances-differ-from-tuple',
                      'what': 'get_receiver(list of Rx instances / one Rx '
@@ -522,7 +524,6 @@ def case_reciprocity(c):
         x[iidx] = lu.solve(np.asarray(rhs)[iidx].astype(x.dtype))
         return x
     Tx = emg3d.TxElectricPoint if kind == 'ee' else emg3d.TxMagneticPoint
-    PA = np.array(ants)
     # reference receiver functionals (for the a-posteriori bound only)
     if kind == 'ee':
         tri = Trilinear(grid, True)
@@ -632,8 +633,8 @@ def transpose_cases(tier):
     out = []
     for g in grids:
         out.append({'grid': g, 'az': None, 'el': None, 'fracs': fracs,
-                    'mixed': 5 if q else 6, 'mixed_magnetic': not q,
-                    'models': list(models[:2]), 'freqs': [1.0], 'imag': 0})
+                    'mixed': 5 if q else 12, 'mixed_magnetic': False,
+                    'models': list(models[:1]), 'freqs': [1.0], 'imag': 0})
     for ia, az in enumerate(AZIMUTHS):
         for ie, el in enumerate(ELEVATIONS):
             for g in grids:
